@@ -419,6 +419,7 @@ func (e *Engine) copyCells(st *State, dst *Object, doff *Term, src *Object, soff
 
 // guardedLoad reads a cell at a symbolic offset that may exceed the object (caller guards use).
 func (e *Engine) guardedLoad(st *State, o *Object, idx *Term) Value {
+	e.record(st, o, idx, 1, false)
 	cells := e.cells(st, o)
 	lo, hi := e.candRange(o, idx, 1)
 	var acc Value
@@ -436,6 +437,7 @@ func (e *Engine) guardedLoad(st *State, o *Object, idx *Term) Value {
 
 // guardedStore writes v at a symbolic offset only if guard holds (and offset within object).
 func (e *Engine) guardedStore(st *State, o *Object, idx *Term, v Value, guard *Term) {
+	e.record(st, o, idx, 1, true)
 	cells := e.cellsW(st, o)
 	if idx.IsConst() {
 		k := idx.ConstU()
